@@ -447,6 +447,87 @@ func isCtxDeriving(n string) bool {
 	return false
 }
 
+// sameAsNoHandlerReturn: rt lies behind a `statsHandler != nil` test whose other (no handler) edge leads straight to
+// a return of the very same constant results.
+func (p *Program) sameAsNoHandlerReturn(rt *ssa.Return) bool {
+	fn := rt.Parent()
+	found := false
+	for _, b := range fn.Blocks {
+		ifi := blockIf(b)
+		if ifi == nil {
+			continue
+		}
+		for succ := 0; succ < 2; succ++ {
+			// the edge into the stats region …
+			if !p.statsGuarded(b.Succs[succ]) || p.statsGuarded(b) || !b.Succs[succ].Dominates(rt.Block()) {
+				continue
+			}
+			// … and the other edge: a block that only returns
+			o := b.Succs[1-succ]
+			for hop := 0; hop < 3 && o != nil; hop++ {
+				// a block that does nothing but (run the defers and) return or jump on
+				only := true
+				for _, x := range o.Instrs[:len(o.Instrs)-1] {
+					switch y := x.(type) {
+					case *ssa.RunDefers:
+					case *ssa.Store:
+						// the spill of a constant result before the deferred calls run
+						if _, isAlloc := y.Addr.(*ssa.Alloc); !isAlloc {
+							only = false
+						}
+						if _, isConst := y.Val.(*ssa.Const); !isConst {
+							only = false
+						}
+					case *ssa.UnOp:
+						if _, isAlloc := y.X.(*ssa.Alloc); !isAlloc || y.Op != token.MUL {
+							only = false
+						}
+					default:
+						only = false
+					}
+				}
+				if only && len(o.Instrs) > 0 {
+					last := o.Instrs[len(o.Instrs)-1]
+					if r0, ok := last.(*ssa.Return); ok {
+						if len(r0.Results) != len(rt.Results) {
+							return false
+						}
+						single := func(v ssa.Value) (*ssa.Const, bool) {
+							// the value itself, or what the defer-spill cell holds at this return
+							os := p.origins(v, originOpts{local: true})
+							if len(os) != 1 {
+								return nil, false
+							}
+							c, ok := os[0].(*ssa.Const)
+							return c, ok
+						}
+						for i := range r0.Results {
+							c0, ok0 := single(r0.Results[i])
+							c1, ok1 := single(rt.Results[i])
+							if !ok0 || !ok1 {
+								return false
+							}
+							if (c0.Value == nil) != (c1.Value == nil) {
+								return false
+							}
+							if c0.Value != nil && c0.Value.ExactString() != c1.Value.ExactString() {
+								return false
+							}
+						}
+						found = true
+					}
+					if _, isJump := last.(*ssa.Jump); isJump && len(o.Succs) == 1 {
+						o = o.Succs[0]
+						continue
+					}
+				}
+				o = nil
+			}
+		}
+	}
+	return found
+}
+
 func ruleStatsPure(r *Run) {
 	p := r.P
 	reach := p.reachRequest()
@@ -469,6 +550,11 @@ func ruleStatsPure(r *Run) {
 			for _, in := range b.Instrs {
 				switch x := in.(type) {
 				case *ssa.Return:
+					// guard-clause form: `if sh == nil { return nil }; …stats…; return nil` - the function ends the
+					// same way with and without a handler when the return on the no-handler edge yields the same constants
+					if p.sameAsNoHandlerReturn(x) {
+						continue
+					}
 					nbad++
 					r.bad(key+"/return", in.Pos(), "a return inside a stats-only block: installing a stats handler changes the control flow of the RPC")
 				case *ssa.Panic:
@@ -964,10 +1050,13 @@ func ruleRoleAgree(r *Run) {
 			}
 			same := false
 			src := p.origins(st.Val, originOpts{})
-			for _, a := range p.fieldValuesIn(top, hm) {
-				for _, b := range src {
-					if a == b {
-						same = true
+			// in the function that builds the handler (the info struct may be filled by a helper that returns the closure)
+			for _, owner := range p.regionOwners(top) {
+				for _, a := range p.fieldValuesIn(owner, hm) {
+					for _, b := range src {
+						if a == b {
+							same = true
+						}
 					}
 				}
 			}
